@@ -36,7 +36,7 @@ ASSUMPTIONS = ["reference model: reads are no-ops, selections are snapshots, a[.
                "known finding 'lazy-view-write-through' is classified by an explicit buffer-sharing model; only deviations equal to that model are attributed to it"]
 REQUIRED_FEATURES = ["pending_selection", "write_after_read", "alias_derivation",
                      "three_variables", "selection_of_selection", "write_through_alias", "write_through_read_result", "write_to_callers_buffer"]
-BOUNDS = {"quick": "2 base arrays, 3 variables, every history of depth <= 4 over 9 selectors x 6 writes x 27 reads (all variables / sources), "
+BOUNDS = {"quick": "2 base arrays, 3 variables, every history of depth <= 4 over 9 selectors x 6 writes x 28 reads (all variables / sources), "
                    "plus depth 5 for histories on the first base whose first two steps are derivations; steps V (write through the array a read returned, 7 kinds) and, on a base built over a caller's strided buffer, X (the caller overwrites it); invariant: numpy print / error configuration unchanged after every step",
           "thorough": "3 base arrays, depth <= 5 complete, depth 6 after two derivations"}
 
@@ -56,7 +56,7 @@ WRITES = ["row0", "col0", "fill", "cell", "rows1", "from"]
 READS = {"meta": False, "repr": True, "tolist": True, "ravel": True, "x[0]": True, "x[1:]": False, "x[:,::-1]": False,
          "x[0,0]": True, "x+1": True, "sum-1": True, "sum0": True, "concat": True, "x[...]": True, "x+y": True,
          "x[:,::2]": False, "x[mask]": True, "rslice": True, "col_counts": False, "x*fcol": True, "argmax": True, "x[ri,ci]": True, "colvals": False,
-         "sort": True, "unique": True, "cumsum": True, "nonzero": True, "mean-1": True}
+         "sort": True, "unique": True, "cumsum": True, "nonzero": True, "mean-1": True, "x[:,-1]": False}
 # writes THROUGH the ndarray a read returned (r = x[0]; r[...] = -4).  Whether such a result is a view or a copy is the library's
 # choice, so these steps have no model; they are judged by the read-commutation oracle alone and not expanded further.
 VIA = ["x[0]", "x[-1]", "x[-1,0:2]", "x[0,::2]", "ravel", "x[:,0]", "sum-1"]
@@ -259,7 +259,7 @@ def enabled(snap):
                 continue
             if r in ("sum0", "col_counts", "colvals") and not any(rows):
                 continue
-            if r == "argmax" and (n < 1 or not all(rows)):
+            if r in ("argmax", "x[:,-1]") and (n < 1 or not all(rows)):
                 continue
             if r == "x[ri,ci]" and (n < 1 or not rows[0] or not rows[-1]):
                 continue
@@ -356,6 +356,8 @@ def do_read(x, r, y=None):
         return x.col_counts()
     if r == "colvals":
         return x.get_column_values(0)
+    if r == "x[:,-1]":
+        return x[:, -1]
     if r == "mean-1":
         with np.errstate(all="ignore"):
             return x.mean(axis=-1)
